@@ -178,6 +178,7 @@ class _Ttl:
             if st.random() < 0.7 and len(self.prefixes) < len(names):
                 self.prefixes[ns] = names[len(self.prefixes)]
         cand = sorted(set(n for n in nss if n.endswith("/") and n not in (XSD,)))
+        self.base_cands = cand
         if cand and st.random() < 0.4:
             self.base = st.choice(cand)
 
@@ -244,6 +245,12 @@ class _Ttl:
         out = []
         for k in order:
             s, pos = by_s[k]
+            if indent == "" and self.base and len(self.base_cands) > 1 and st.random() < 0.25:
+                # a second base directive in the middle of the document: the same relative text now means another IRI
+                new = st.choice([b for b in self.base_cands if b != self.base])
+                spelled = new[len(self.base) :] if new.startswith(self.base) and st.random() < 0.5 else new
+                out.append((st.choice(["@base <%s> .", "BASE <%s>", "base <%s>"]) if not self.n3 else "@base <%s> .") % spelled)
+                self.base = new
             if st.random() < 0.35:
                 for p, o in pos:  # one statement per triple
                     out.append(f"{indent}{self.term(s)} {self.term(p, True)} {self.term(o)} .")
